@@ -266,6 +266,10 @@ func Uneval(props bool, thorough bool) *Set {
 		}
 	} else {
 		for _, x := range []string{
+			// contains with a trivial subschema still evaluates (annotates) the items it matches
+			`{"contains":true,"unevaluatedItems":false}`, `{"contains":{},"unevaluatedItems":false}`, `{"allOf":[{"contains":true}],"unevaluatedItems":false}`, `{"$ref":"#/$defs/c","$defs":{"c":{"contains":{}}},"unevaluatedItems":false}`,
+			`{"contains":true,"minContains":2,"unevaluatedItems":false}`, `{"anyOf":[{"contains":true,"minContains":3},{"prefixItems":[true]}],"unevaluatedItems":{"type":"integer"}}`, `{"contains":false,"minContains":0,"unevaluatedItems":false}`,
+			`{"contains":true,"maxContains":1,"unevaluatedItems":false}`, `{"if":{"contains":true},"then":{"maxItems":2},"unevaluatedItems":{"type":"string"}}`, `{"not":{"contains":true},"unevaluatedItems":false}`,
 			`{"contains":{"type":"array","items":true},"unevaluatedItems":false}`,
 			`{"contains":{"type":"array","prefixItems":[true,true]},"unevaluatedItems":{"type":"integer"}}`,
 			`{"prefixItems":[{"prefixItems":[true,true]}],"unevaluatedItems":false}`,
